@@ -254,7 +254,7 @@ pub fn run(ctx: &Ctx) -> PropResult {
         wls.push(mk("format_high_range_end", cal::MAX_DAY - cyc, cal::MAX_DAY, s));
         wls.push(mk("format_strided_whole_range", cal::MIN_DAY, cal::MAX_DAY, if ctx.quick() { 8_191 } else { 61 }));
         // year edges of every year in a window: where week 52/53/1 is decided
-        wls.push(Workload::cases("format_year_edges", ctx.n(40_000, 400_000), move |rec, idx, rng| {
+        wls.push(Workload::cases("format_year_edges", ctx.count(40_000, 400_000), move |rec, idx, rng| {
             let a = if idx % 2 == 0 { rng.range_i64(-4000, 4000) } else { rng.range_i64(-5_879_000, 5_879_000) };
             let jan1 = cal::days_from_civil(a, 1, 1);
             for off in -4..=3 {
